@@ -156,10 +156,14 @@ ResultOk ==
 ResultErr ==
   /\ IsEvent("result") /\ ~E.ok /\ phase = "parse"
   /\ IF E.err.kind = "MaxParsingDepthExceeded"
-     THEN /\ Limit >= 0 /\ ~cur.ref
-          /\ (ref.ok => Limit < ref.maxd)
-          /\ IsPrefix(acts, ref.acts)
-          /\ UNCHANGED <<ref, base>>
+     THEN /\ Limit >= 0
+          /\ IF cur.ref
+             THEN \* the reference run carries a large limit as a guard against runaway tables
+                  /\ ref' = [ok |-> FALSE, acts |-> acts, cmts |-> cmts, maxd |-> maxd]
+                  /\ base' = IF cur.newinput THEN [ok |-> FALSE, acts |-> acts] ELSE base
+             ELSE /\ (ref.ok => Limit < ref.maxd)
+                  /\ IsPrefix(acts, ref.acts)
+                  /\ UNCHANGED <<ref, base>>
      ELSE \* a conflict-free table rejects non-sentences only
           /\ (~G.resolved => InLang # "yes")
           /\ IF cur.ref THEN ref' = [ok |-> FALSE, acts |-> acts, cmts |-> cmts, maxd |-> maxd]
